@@ -6,7 +6,8 @@ from ..roles import P_, param, INFO_TY, ENV_TY, AnchorMissing
 from ..mir import generic_path, proj
 from . import c14
 
-LP = "human(load(I:halo_pair::state::PAIR_INFO).liquidity_token)"
+def LP(ctx):
+    return "human(load(%s).liquidity_token)" % ctx.N.PAIR_INFO
 
 
 class Withdraw:
@@ -26,9 +27,9 @@ class Withdraw:
         self.a, self.S = self.T.var("a"), self.T.var("S")
         self.refunds = {}     # k -> (call bb, RF amount term, info roots, value)
         self.problems = []
-        qp = [(b, P.val_call(w, w.body, b)) for b, p, fr, t in P.calls(w) if p and generic_path(p).endswith("PairInfoRaw::query_pools")]
+        qp = [(b, P.val_call(w, w.body, b)) for b, p, fr, t in P.calls(w) if ctx.N.is_fn(p, "query_pools")]
         self.qp = qp
-        ti = [(b, P.val_call(w, w.body, b)) for b, p, fr, t in P.calls(w) if p and generic_path(p).endswith("querier::query_token_info")]
+        ti = [(b, P.val_call(w, w.body, b)) for b, p, fr, t in P.calls(w) if ctx.N.is_fn(p, "q_token_info")]
         self.ti = ti
         for cb in self.pays:
             cv = P.val_call(w, w.body, cb)
@@ -115,13 +116,13 @@ def run(ctx):
         r1.fail("C04.R1:pools", w.path, w.span, "expected one query_pools call, found %d" % len(wd.qp))
     else:
         qb, qv = wd.qp[0]
-        if set(ctx.roots(qv[4][0])) != {"load(I:halo_pair::state::PAIR_INFO)"} or set(ctx.roots(qv[4][3])) != {P_(w, env, ".contract.address")}:
+        if set(ctx.roots(qv[4][0])) != {"load(%s)" % ctx.N.PAIR_INFO} or set(ctx.roots(qv[4][3])) != {P_(w, env, ".contract.address")}:
             r1.fail("C04.R1:pools-origin", w.path, common.span_of_block_term(w, qb), "reserves are read for %s at %s" % (sorted(ctx.roots(qv[4][0])), sorted(ctx.roots(qv[4][3]))))
         else:
             r1.site("reserves ⊢ PAIR_INFO.query_pools(env.contract.address)")
         for k, (cb, X, info_roots, cf, src, r) in sorted(wd.refunds.items()):
             sr = set(ctx.roots(src))
-            if sr != {"C:haloswap::asset::PairInfoRaw::query_pools@%s:bb%d" % (w.path, qb)}:
+            if sr != {"C:%s@%s:bb%d" % (ctx.N.cpath("query_pools"), w.path, qb)}:
                 r1.fail("C04.R1:refund-source:%d" % k, w.path, common.span_of_block_term(w, cb), "refund %d is computed from %s, not from the queried reserves" % (k, sorted(sr)))
             else:
                 r1.site("refund %d: reserve ⊢ pools[%d].amount" % (k, k))
@@ -129,7 +130,7 @@ def run(ctx):
         r1.fail("C04.R1:supply", w.path, w.span, "expected one TokenInfo query, found %d" % len(wd.ti))
     else:
         tb, tv = wd.ti[0]
-        if set(ctx.roots(tv[4][1])) != {LP}:
+        if set(ctx.roots(tv[4][1])) != {LP(ctx)}:
             r1.fail("C04.R1:supply-origin", w.path, common.span_of_block_term(w, tb), "total supply is read from %s, expected the pair's LP token" % sorted(ctx.roots(tv[4][1])))
         else:
             r1.site("S ⊢ TokenInfo(LP token).total_supply")
@@ -155,7 +156,7 @@ def run(ctx):
             for (fn2, b2, i2, adt2, var2, v2, span2) in common.message_sites(P):
                 if fn2.path == w.path and common.adt_short(adt2) == "WasmMsg" and var2 == "Execute" and "Cw20ExecuteMsg::Burn" in "|".join(sorted(ctx.roots(dict(v2[3])["msg"]))):
                     tgt = set(ctx.roots(dict(v2[3])["contract_addr"]))
-            if tgt != {LP}:
+            if tgt != {LP(ctx)}:
                 r2.fail("C04.R2:burn-target", w.path, span.replace("!x", ""), "Burn is addressed to %s, expected the LP token" % sorted(tgt or []))
             else:
                 r2.site("Burn{amount ⊢ hook amount} -> LP token")
